@@ -214,12 +214,12 @@ def gchild? (s : String) : Option GraphML.Child :=
            directed := ← optStr? dir, data := data }
   | _ => none
 
-/-- a key element: `id,name,type,defaults` with defaults = `-` or texts joined by `|` -/
+/-- a key element: `id,name,type,for,defaults` with defaults = `-` or texts joined by `|` -/
 def gkey? (s : String) : Option GraphML.Key :=
   match s.splitOn "," with
-  | [id, name, type, defs] => do
+  | [id, name, type, fr, defs] => do
     let defs ← if defs == "-" then some [] else (defs.splitOn "|").mapM str?
-    pure { id := ← optStr? id, name := ← optStr? name, type := ← optStr? type, defaults := defs }
+    pure { id := ← optStr? id, name := ← optStr? name, type := ← optStr? type, for_ := ← optStr? fr, defaults := defs }
   | _ => none
 
 def gdoc? (hasGraph ed ni keys children : String) : Option GraphML.Doc := do
@@ -241,12 +241,17 @@ def graphmlSpec (weightKey : String) (doc : GraphML.Doc) (n : Nat) (dense : List
   let edges := doc.children.filter GraphML.isEdge
   let ids := nodes.map fun c => c.id.getD ""
   let canonical := doc.nodeids == some "canonical"
-  let wkey := (doc.keys.filter fun k => k.name == some weightKey).getLast?
+  let wkey := (doc.keys.filter fun k => k.name == some weightKey && !(k.for_ == some "node")).getLast?
+  let wtype : Option GraphML.PType := wkey.bind fun k => k.type.bind GraphML.ptypeOf
   let kind : Ingest.Kind := match wkey with
-    | some k => ((k.type.bind GraphML.kindOfType).getD .bool)
+    | some _ => GraphML.kindOf wtype
     | none => .bool
+  -- the value of a text of the declared type (GraphML booleans: "true" / "1")
+  let value (t : String) : Rat := match wtype with
+    | some .bool => if GraphML.trimLower t == "true" || GraphML.trimLower t == "1" then 1 else 0
+    | _ => (parseNum t).getD 0
   let dflt : Rat := match wkey with
-    | some k => (k.defaults.getLast?.bind parseNum).getD 1
+    | some k => (k.defaults.getLast?.map value).getD 1
     | none => 1
   let wid := wkey.bind (·.id)
   let number (s : Option String) : Nat :=
@@ -254,7 +259,7 @@ def graphmlSpec (weightKey : String) (doc : GraphML.Doc) (n : Nat) (dense : List
     else Ingest.pos (s.getD "") ids
   let res : List GraphML.REdge := edges.map fun c =>
     let w := match (c.data.filter fun d => some d.1 == wid).getLast? with
-      | some d => if kind == .bool then (if d.2 == "" then 0 else 1) else (parseNum d.2).getD 0
+      | some d => value d.2
       | none => dflt
     let und := match c.directed with
       | some d => d != "true"
